@@ -357,6 +357,7 @@ type c12State struct {
 	failed  bool              // a failure has been reported (no further stages)
 	genOK   bool
 	skipped string
+	genErr  string // an error answer to a request expected to generate: reported after upstream protoc-gen-go has been asked too
 }
 
 var importRe = regexp.MustCompile(`^package (\S+)`)
@@ -384,6 +385,27 @@ func (g *genCtx) runC12(reqs []*genReq) {
 		st.res = runPlugin(g.plugin, r.request(r.param, r.generate), nil, "")
 		g.stage1(st)
 	})
+	// a request answered with an error: held against the plugin only if upstream protoc-gen-go serves the same request
+	{
+		refused := map[*c12State]string{}
+		for _, st := range states {
+			if st.genErr != "" {
+				refused[st] = st.genErr
+			}
+		}
+		if len(refused) > 0 {
+			g.judgeWithReference(refused)
+		}
+		for _, st := range states {
+			if st.genErr == "" {
+				continue
+			}
+			if st.skipped == "reference-fails-too" {
+				continue // no further stages for it either
+			}
+			g.fail("C12", st.req, st.genErr)
+		}
+	}
 	// stage 2: parameter strings (features= permutations and unknown names, paths=, unknown flags) on every request
 	g.paramVariants(reqs, states)
 	// stage 3: identifier / index model lines from the emitted sources
@@ -396,10 +418,10 @@ func (g *genCtx) runC12(reqs []*genReq) {
 	g.compileAndSmoke(states)
 	for _, st := range states {
 		cls := "outcome/ok"
-		if st.failed {
-			cls = "outcome/failed"
-		} else if st.skipped != "" {
+		if st.skipped != "" {
 			cls = "outcome/" + st.skipped
+		} else if st.failed {
+			cls = "outcome/failed"
 		}
 		o.count(cls)
 	}
@@ -425,7 +447,7 @@ func (g *genCtx) stage1(st *c12State) {
 			return
 		}
 		st.failed = true
-		g.fail("C12", r, "plugin answered a valid request with an error: "+firstLines(resp.GetError(), 3))
+		st.genErr = "plugin answered a valid request with an error: " + firstLines(resp.GetError(), 3)
 		return
 	}
 	want := r.proto3Requested(r.generate)
@@ -993,6 +1015,7 @@ func (g *genCtx) identLines(st *c12State) {
 		if !ok {
 			continue
 		}
+		srcLines := strings.Split(src, "\n")
 		// what the source declares
 		mdOf := map[string]string{} // message path "A.B" -> md ident
 		mdPath := map[string]string{}
@@ -1105,6 +1128,9 @@ func (g *genCtx) identLines(st *c12State) {
 				o.count("ident/message")
 				if spec, ok := sizeSpec(m); ok {
 					o.kase("GENSIZEBR", []string{sx(spec)}, orMissing(sizeOpens(src, gn)))
+					for _, t := range brTemplates {
+						o.kase("GENBR", []string{t, sx(spec)}, orMissing(methodOpens(srcLines, t, gn)))
+					}
 				}
 				walk(m.Messages, p)
 			}
@@ -1308,4 +1334,62 @@ func depTables(src string) string {
 		return ""
 	}
 	return strings.Join(names, ",") + "|" + strings.Join(idxs, ",")
+}
+
+// templates whose brace skeleton is modelled in Model/GenTemplates2.v
+var brTemplates = []string{"has", "clear", "get", "set", "mutable", "newfield", "range", "whichoneof", "marshal", "unmarshal"}
+
+var brMethodName = map[string]string{"has": "Has", "clear": "Clear", "get": "Get", "set": "Set", "mutable": "Mutable", "newfield": "NewField", "range": "Range", "whichoneof": "WhichOneof"}
+var reMethodsRet = regexp.MustCompile(`^\treturn &\S+\.Methods\{$`)
+
+// methodOpens counts the lines ending in '{' of one generated method of fastReflection_<goName> (for marshal / unmarshal:
+// of the closure inside ProtoMethods)
+func methodOpens(lines []string, tmpl, goName string) string {
+	count := func(from, to int) string {
+		n := 0
+		for _, l := range lines[from:to] {
+			if strings.HasSuffix(strings.TrimRight(l, " \t"), "{") {
+				n++
+			}
+		}
+		return fmt.Sprint(n)
+	}
+	if name, ok := brMethodName[tmpl]; ok {
+		hdr := "func (x *fastReflection_" + goName + ") " + name + "("
+		for i, l := range lines {
+			if strings.HasPrefix(l, hdr) {
+				for j := i + 1; j < len(lines); j++ {
+					if lines[j] == "}" {
+						return count(i, j)
+					}
+				}
+			}
+		}
+		return ""
+	}
+	hdr := "func (x *fastReflection_" + goName + ") ProtoMethods() "
+	for i, l := range lines {
+		if !strings.HasPrefix(l, hdr) {
+			continue
+		}
+		m, u, e := -1, -1, -1
+		for j := i + 1; j < len(lines) && lines[j] != "}"; j++ {
+			switch {
+			case strings.HasPrefix(lines[j], "\tmarshal := func("):
+				m = j
+			case strings.HasPrefix(lines[j], "\tunmarshal := func("):
+				u = j
+			case reMethodsRet.MatchString(lines[j]):
+				e = j
+			}
+		}
+		if m < 0 || u < 0 || e < 0 {
+			return ""
+		}
+		if tmpl == "marshal" {
+			return count(m, u)
+		}
+		return count(u, e)
+	}
+	return ""
 }
